@@ -81,6 +81,11 @@ Definition istep (s : st) (l : lab) : option st :=
       end
   | IIn m, LRead m' i v =>
       if Nat.eqb m m' && (i <? n) && Z.eqb v (pv s m i) then Some s else None
+  (* inside "with unwrap(inference_mode=False)": the inference thread may back-propagate through the module it holds *)
+  | IIn m, LGrad m' i g =>
+      if Nat.eqb m m' && (i <? n) then
+        Some {| pv := pv s; gv := upd2 (gv s) m i g; md := md s; tref := tref s; iref := iref s; lk := lk s; isc := isc s; tp := tp s; stash := stash s |}
+      else None
   | IIn m, LRel => Some (set_i s IOut None)
   | IOut, LSecE => Some (set_i s INone (lk s))
   | _, _ => None
